@@ -22,6 +22,7 @@ pub mod c16;
 pub mod c17;
 pub mod c18;
 pub mod c19;
+pub mod c19_e2e;
 pub mod c20;
 
 use crate::runner::{Report, Tier};
